@@ -164,6 +164,19 @@ func (w *World) SeqSort(elem string) string {
 func (w *World) ElemSort(seqSort string) string { return w.seqSorts[seqSort] }
 
 func (w *World) dtFor(t types.Type) *DT {
+	// `type X bytes.Buffer`: X and bytes.Buffer share one sort (and so one heap): a pointer
+	// converted between the two types addresses the same object
+	if n, ok := t.(*types.Named); ok {
+		if g := ghostFor(n); g != "" && g != shortTypeName(n) {
+			if st, ok := n.Underlying().(*types.Struct); ok && st.NumFields() > 0 && st.Field(0).Pkg() != nil {
+				if i := strings.LastIndex(g, "."); i >= 0 {
+					if obj, ok := st.Field(0).Pkg().Scope().Lookup(g[i+1:]).(*types.TypeName); ok {
+						return w.dtFor(obj.Type())
+					}
+				}
+			}
+		}
+	}
 	key := typeKey(t)
 	if d, ok := w.dtByKey[key]; ok {
 		return d
